@@ -69,6 +69,25 @@ Emit ==
                                  via |-> hist[i].via]]],
        exp |-> [i \in DOMAIN hist |-> hist[i].exp]]))
 
+(* Config: the documented defaults, and every setter with values around    *)
+(* its documented limits (one case each; emitted once, in the initial      *)
+(* state)                                                                  *)
+CfgFields == {"maxEntries", "maxValidity", "transportFailure", "miscError",
+              "maxNxdomain", "maxNodata", "maxDelegation"}
+Probe(f) == LET l == DocLimits[f] IN
+            {0, l.min - 1, l.min, l.min + 1, DocDefaults[f], l.max - 1, l.max, l.max + 1,
+             2000000000} \cap Nat
+EmitCfg ==
+  steps = 0 =>
+    /\ PrintT("CASE " \o ToJson([in |-> [kind |-> "config", field |-> "none", value |-> 0],
+                                 exp |-> DocDefaults]))
+    /\ \A f \in CfgFields : \A v \in Probe(f) :
+          PrintT("CASE " \o ToJson([in |-> [kind |-> "config", field |-> f, value |-> v],
+                                   exp |-> ConfigAfterSet(f, v)]))
+    /\ \A b \in BOOLEAN :
+          PrintT("CASE " \o ToJson([in |-> [kind |-> "config", field |-> "cacheTruncated", value |-> b],
+                                   exp |-> [DocDefaults EXCEPT !.cacheTruncated = b]]))
+
 (* the property along generated behaviours too *)
 GProp == /\ ServedWasSaid(last) /\ AgedExactly(last) /\ NeverStale(last)
          /\ BoundsRespected(last) /\ NoDnssecLeak(last) /\ NoPanic(last)
